@@ -24,7 +24,7 @@ import xarray as xr
 
 from harness import core
 
-GEN = ["gen_constants"]
+GEN = ["gen_constants", "gen_block_loops"]
 EXTRACT_FILES = ["X03"]
 DRIVERS = ["x03"]
 RULE = ("synthetic cost volumes: shape from {1,2,99,100,101,199,200,201,250} x {1,3,101} (either orientation) x 2-5 "
@@ -425,4 +425,8 @@ def run(ctx):
             if not p["inf"] and (rng.random() < (0.5 if quick else 0.3)):
                 crop_check(ctx, p, arrs, out, rng)
     ctx.gen_obligations = ["1 <= Gen.Constants.wta_argmin_block /\\ 1 <= Gen.Constants.wta_argmax_block (vm_compute; the "
-                           "theorems are instantiated at these constants in Props/C03.v)"]
+                           "theorems are instantiated at these constants in Props/C03.v)",
+                           "skeleton_wf Gen.BlockLoops.argmin_split = true /\\ skeleton_wf Gen.BlockLoops.argmax_split = true /\\ "
+                           "wta_skeleton_ok false/true (offsets from 0, np.zeros output, arg-min/arg-max of the inner chunk) /\\ "
+                           "sk_B = Gen.Constants.wta_argmin_block / wta_argmax_block (C03_block_loop_skeleton, vm_compute on the "
+                           "skeleton translator/gen_block_loops.py reads in disparity.py with ast; fail closed)"]
